@@ -187,7 +187,7 @@ func configImmutable(c *Ctx, pkg string) {
 		for _, wa := range ix.WriteAccesses(fr) {
 			w := wa.Fn
 			if ctorOrBuilderWrite(ix, wa, func(top *ssa.Function) bool {
-				return pkg == "circuitbreaker" && f.Name() == "state" && top.Name() == "transitionTo"
+				return pkg == "circuitbreaker" && f.Name() == "state" && canonName(top) == "transitionTo"
 			}) {
 				continue
 			}
